@@ -40,7 +40,7 @@ MANIFEST = {
             "(C03_unseeded_family_counterexample = finding F-C03-1, repaired), a foreign draw between reset and step (C03_foreign_draw_"
             "counterexample). Each modelled set consumer is permutation-invariant; every duplicate-free dependencies-first evaluation order "
             "yields the same reward table; the cycle check and the dependencies-first property for every neighbour order are C10's theorem, "
-            "imported. The full statement is refuted by the Frame.size witness (C03_full_counterexample, finding F-9, open). Translator tie: (1) "
+            "imported. The statement for VARIABLE-width reading texts is refuted by the Frame.size witness (C03_full_counterexample: the code before the F-9 repair). Translator tie: (1) "
             "the nondeterminism inventory of the whole tree (every iterated set, uuid, secrets, clock, time, id(), hash(), urandom, random / "
             "np.random / torch / gymnasium-space draw, ordering or text use of an identifier) is regenerated as Gen/Nondet.lean WITH one "
             "mechanical fact per site (generator family and evaluation time of a draw, constant secret length, sinks of a clock reading by a "
@@ -49,8 +49,8 @@ MANIFEST = {
             "is checked against the site's fact (C03_facts_support_discharges, C03_decl_uses_discharged, C03_identifier_uses); (2) the shape of "
             "set_random_seed / __init__ / reset is regenerated as Gen/NondetSeeding.lean and must be the shape the theorems are about, with "
             "seeding before the construction of the game (C03_gen_seed_shape, C03_gen_seed_before_build) and every draw made at call time from a "
-            "seeded family (C03_gen_draw_families_seeded). Of 70 discharges 17 rest on a model lemma alone, 42 on a mechanical fact plus a lemma "
-            "for the kind, 7 on a mechanical fact plus a trusted runtime fact, 4 are attributed to F-9 (C03_discharge_counts); none rests on "
+            "seeded family (C03_gen_draw_families_seeded). Of 74 discharges 15 rest on a model lemma alone, 52 on a mechanical fact plus a lemma "
+            "for the kind, 7 on a mechanical fact plus a trusted runtime fact, none is attributed to an open finding (C03_discharge_counts); none rests on "
             "reading alone. Correspondence tie: identical (scenario, seed, operations) in fresh interpreters whose PYTHONHASHSEED values are "
             "chosen to give pairwise different set orders of the scenario's string vocabularies, logging fully on / fully off, diffed step by step "
             "on (observation, reward, agent actions and responses, complete histories, generator-state digests); every seed value of the family "
@@ -73,7 +73,7 @@ MODULES = ["PrimaiteModel.Props.C03"]
 # basis of every reason of the discharge table (mirrors `Discharge.basis` in Lemmas/NondetDischarge.lean; the split itself is the
 # theorem C03_discharge_counts)
 BASIS = {**{r: "mechanical" for r in ("fixedWidthReading", "fixedLenSecret", "clockNotRead", "seededRng", "seeding", "unseededByConfig",
-                                                                     "offline", "setDeclCovered", "setEmpty", "setSingleton", "hashValueDiscarded")},
+                                                                     "offline", "setDeclCovered", "setEmpty", "setSingleton", "hashValueDiscarded", "setSorted")},
          **{r: "trusted" for r in ("hashNotIterated", "setMembershipOnly", "setIntHash", "idTextEqOnly")}}
 EXE = "drv_c03"
 SKIP = {"bad_primaite_session", "no_nodes_links_agents_network", "eval_only_primaite_session", "multi_agent_session", "data_manipulation_marl"}
